@@ -11,7 +11,7 @@ from vlib import harness_bin
 
 class Rec:
     __slots__ = ("kind", "t", "ep", "conn", "space", "pn", "payload", "_frames", "name", "text", "what", "args",
-                 "src", "dst", "len", "action", "at", "head", "idx")
+                 "src", "dst", "len", "action", "at", "head", "idx", "orig")
 
     def __init__(self, kind):
         self.kind = kind
@@ -57,6 +57,8 @@ class Trace:
                 r.t = int(f[0]); r.src = f[1]; r.dst = f[2]; r.len = int(f[3]); r.action = f[4]
                 r.at = int(f[5]) if f[5] != "-" else None
                 r.head = bytes.fromhex(f[6]) if len(f) > 6 and f[6] != "-" else b""
+                # datagrams altered in flight carry the length their sender put on the wire as an extra token `o<len>`
+                r.orig = int(f[7][1:]) if len(f) > 7 and f[7].startswith("o") else r.len
             elif k == "end":
                 f = rest.split(" ", 2)
                 self.end = (int(f[0]), f[1], f[2] if len(f) > 2 else "")
